@@ -55,3 +55,90 @@ def judge_refutations(rep, items, budget):
         if event_happens(it[0], f):
             bad.append((it, f))
     return bad
+
+
+# ---------------------------------------------------------------- search after a broken correspondence
+
+def neighbours(prog, rng, cap=400, keep_first=False):
+    """programs one slot away from `prog` (same table size): every slot set to every other
+    instruction of the table's alphabet or left undefined; sampled down to `cap`"""
+    rows = [r.split(" ") for r in prog.split("  ")]
+    S, C = len(rows), len(rows[0])
+    ins = core.all_instrs(S, C)
+    out = []
+    for i in range(S):
+        for j in range(len(rows[i])):
+            if (i, j) == (0, 0) and keep_first:
+                continue
+            if (i, j) == (0, 0):
+                alts = [x for x in ins if x != "..."]
+            else:
+                alts = ins
+            for x in alts:
+                if x != rows[i][j]:
+                    r2 = [list(r) for r in rows]
+                    r2[i][j] = x
+                    out.append(core.prog_text(r2))
+    if len(out) > cap:
+        out = rng.sample(out, cap)
+    return out
+
+
+def escalate(rep, mism, is_claim, refuted_by, seed, budget=60000, time_cap=150, label="", keep_first=False):
+    """A correspondence mismatch says the code no longer computes the model's function, not that the
+    property fails.  Search for a concrete failing input: take the mismatching cases and their
+    one-slot neighbours (the rare branch a change needs is usually shared by neighbours), keep the
+    cases on which the REAL answer (a) differs from the model's and (b) is a claim about the
+    machine, and judge each such claim by an L0 run.  `is_claim(out)` selects answers that assert
+    something; `refuted_by(line, out, facts)` is True when the L0 facts contradict the answer.
+    Only runs when `mism` is non-empty, so the unchanged tree never pays for it."""
+    import time
+    if not mism:
+        return 0
+    t0 = time.time()
+    rng = random.Random(seed * 7919 + 99)
+    seeds = []
+    for m in mism:
+        c = m["case"]
+        if " | " in c and c not in seeds:
+            seeds.append(c)
+    rng.shuffle(seeds)
+    found = 0
+    tried = 0
+    seen = set()
+    rounds = 0
+    frontier = seeds[:60]
+    while frontier and time.time() - t0 < time_cap and found < 5 and rounds < 4:
+        rounds += 1
+        cand = []
+        for c in frontier:
+            head, prog = c.split(" | ", 1)
+            for p2 in ([prog] if rounds == 1 else []) + neighbours(prog, rng, cap=300 if rounds == 1 else 60, keep_first=keep_first):
+                l = f"{head} | {p2}"
+                if l not in seen:
+                    seen.add(l)
+                    cand.append(l)
+        if not cand:
+            break
+        cand = cand[:40000]
+        impl = core.run_harness(cand)
+        model = core.run_driver(cand)
+        tried += len(cand)
+        dev = [(l, i, m) for l, i, m in zip(cand, impl, model) if i != m]
+        claims = [(l, i, m) for l, i, m in dev if is_claim(i)]
+        progs = sorted({l.split(" | ", 1)[1] for l, _, _ in claims})
+        facts = dict(zip(progs, [parse_kv("x " + o) for o in core.run_driver([f"l0run {budget} | {p}" for p in progs])]))
+        for l, i, m in claims:
+            f = facts[l.split(" | ", 1)[1]]
+            if refuted_by(l, i, f):
+                found += 1
+                rep.violation("oracle", {"case": l, "impl": i, "model": m,
+                                         "l0": {k: f.get(k) for k in ("halt", "spin", "erase", "blanks", "steps")},
+                                         "found_by": f"neighbourhood search after a broken correspondence{label} (round {rounds})"})
+                if found >= 5:
+                    break
+        # next round: neighbours of the cases that deviate from the model (closest to the changed branch)
+        frontier = [l for l, _, _ in dev][:150]
+    rep.cov["escalation_cases_tried"] = rep.cov.get("escalation_cases_tried", 0) + tried
+    rep.cov["escalation_failing_inputs_found"] = rep.cov.get("escalation_failing_inputs_found", 0) + found
+    return found
